@@ -529,6 +529,7 @@ type runner struct {
 	v     kit.Verdict
 	slow  bool // a bounded wait expired
 	sent  map[string]map[uint32][]int // direction -> stream -> wire frames of each header block sent, in order
+	base  int  // relay loops left behind by earlier cases of this process (stuck for good)
 	calib bool // both relay directions were seen running
 	dead  bool // a relay direction ended while frames were awaited
 }
@@ -541,7 +542,7 @@ func (r *runner) wait(ep *h2kit.Endpoint, cond func(*h2kit.Rec) bool) bool {
 		if ep.Wait(50*time.Millisecond, cond) {
 			return true
 		}
-		if r.calib && h2kit.RelayLoops() < 2 {
+		if r.calib && h2kit.RelayLoops() < r.base+2 {
 			if ep.Wait(100*time.Millisecond, cond) {
 				return true
 			}
@@ -750,12 +751,13 @@ func runOnce(c Case, bound time.Duration, vr variant) (v kit.Verdict, slow bool)
 			}
 		}
 	}
+	base := h2kit.RelayLoops()
 	s, err := h2kit.Open(h2kit.Options{Pieces: pieces, Factories: h2kit.Factories(c.Procs), Bound: bound})
 	if err != nil {
 		return kit.Failf("C08/session/setup/relay-did-not-connect", "%v", err), true
 	}
 	defer s.Teardown(bound)
-	r := &runner{c: c, s: s, bound: bound, sent: map[string]map[uint32][]int{}}
+	r := &runner{c: c, s: s, bound: bound, base: base, sent: map[string]map[uint32][]int{}}
 	cl, sv := s.Client, s.Server
 	cl.SetAutoAck(false)
 	sv.SetAutoAck(false)
@@ -787,7 +789,7 @@ func runOnce(c Case, bound time.Duration, vr variant) (v kit.Verdict, slow bool)
 	if !okc || !oks {
 		return kit.Failf("C08/settings/setup/initial-settings-not-forwarded", "initial SETTINGS not delivered within %v (client got=%v server got=%v)", bound, okc, oks), true
 	}
-	r.calib = h2kit.RelayLoops() == 2
+	r.calib = h2kit.RelayLoops() == base+2
 
 	wantAtServer := expected(cInit, c.Client)
 	wantAtClient := expected(sInit, server)
@@ -876,6 +878,16 @@ func has(v kit.Verdict, sig string) bool {
 // alone, with three times the bound.
 func attempt(c Case, vr variant) kit.Verdict {
 	v, slow := runOnce(c, kit.T(), vr)
+	for _, f := range v {
+		// "a relay direction ended" is judged from the number of relay loops in the
+		// process; a loop left over from an earlier case that ends just now would
+		// look the same. Anything of that kind that is not a known finding is
+		// repeated once against a fresh count.
+		if strings.HasSuffix(f.Sig, "-aborted") && !kit.Known(f.Sig) {
+			v, slow = runOnce(c, kit.T(), vr)
+			break
+		}
+	}
 	if slow {
 		v2, slow2 := runOnce(c, 3*kit.T(), vr)
 		if !slow2 {
